@@ -115,4 +115,13 @@ class iterable_loader(DataStreamProcessor):
 
     def process_resources(self, resources):
         yield from super(iterable_loader, self).process_resources(resources)
-        yield self.res.iter(keyed=True)
+        yield self.iter_resource()
+
+    def iter_resource(self):
+        try:
+            yield from self.res.iter(keyed=True)
+        except Exception:
+            # the table reader wraps a failure of the iterable in its own SourceError
+            if self.exc is not None:
+                raise self.exc
+            raise
